@@ -24,6 +24,15 @@ add("C01",
     "length-1 broadcasting along the domain axis and domain/array length mismatches are outside the generator.",
     "Coq proof over Q (induction on lists, ring/field) + vm_compute correspondence on real outputs", "DESIGN.md §5 C01")
 
+add("C04",
+    "(F) formulation theorem: the problem handed to cvxpy equals the documented objective sum_j w_j^2 (K(Ax+baseline)-b)_j^2 for every x and all three K kinds; "
+    "prediction = model capture; zero error iff reproduced. (C) weak-duality theorem (Cert/Duality.v): a passing certificate verdict implies, for ALL in-bound x, "
+    "sqrt f(X) <= sqrt f(x) + tol; the verdict is evaluated by the Coq VM on the real output of every generated fit (ReceptorEstimator.fit and lsq_linear), "
+    "with bounds and prediction checks. Instances are quantified by a seeded generator, not by proof.",
+    TRUST + "The solver (cvxpy + OSQP/CLARABEL) is opaque: only its result is certified. Certificate points come from an exact-rational active-set "
+    "solver in the harness (untrusted). Tolerances are the property's: 2e-2 capture units / 1% of bound range (default), 2e-3 / 1e-6 (CLARABEL tight settings).",
+    "Coq weak-duality certificate checker (proved sound) run by vm_compute on real fits + formulation theorems", "DESIGN.md §5 C04, §3.2")
+
 NOT_APPLICABLE = []
 ALL = ["C%02d" % i for i in range(1, 21)]
 
